@@ -211,6 +211,36 @@ pub fn profile(name: &str) -> Option<Profile> {
             }),
             ..base
         },
+        // Two instances, reliable network, and process crashes of either
+        // instance in the middle of background work (C08, C09).
+        "netcrash" | "netcrashfaults" => Profile {
+            name: if name == "netcrash" { "netcrash" } else { "netcrashfaults" },
+            oracles: Oracles { c01: true, c02: true, c03: true, ..Default::default() },
+            gen_cfg: GenCfg {
+                w_entitlement: 25,
+                w_config: 30,
+                w_removal: 8,
+                w_keyroll: 12,
+                w_maintenance: 10,
+                allow_restart: false,
+                w_crash: 14,
+                ..GenCfg::default()
+            },
+            min_ops: 20,
+            max_ops: 50,
+            force_disk: true,
+            net: Some(if name == "netcrash" {
+                crate::net::NetCfg::reliable()
+            } else {
+                crate::net::NetCfg {
+                    drop_request_permille: 40,
+                    drop_response_permille: 40,
+                    duplicate_permille: 50,
+                    late_copy_permille: 0,
+                }
+            }),
+            ..base
+        },
         "all" => Profile {
             name: "all",
             oracles: Oracles::all(),
